@@ -1446,21 +1446,42 @@ static void end_query(ares_channel_t *channel, ares_server_t *server,
 
   ares_metrics_record(query, server, status, dnsrec);
 
-  /* Invoke the callback. */
-  query->callback(query->arg, status, query->timeouts, dnsrec);
-  ares_free_query(query);
+  ares_query_complete(query, status, query->timeouts, dnsrec);
 
   /* Check and notify if no other queries are enqueued on the channel.  This
-   * must come after the callback and freeing the query for 2 reasons.
-   *  1) The callback itself may enqueue a new query
-   *  2) Technically the current query isn't detached until it is free()'d.
+   * must come after the callback since the callback itself may enqueue a new
+   * query.
    */
   ares_queue_notify_empty(channel);
+}
+
+static void ares_query_release(ares_query_t *query);
+
+/* Complete a query: invoke its callback and free it.
+ *
+ * The query is unlinked from the channel (list of all queries, query id
+ * table, timeout list, connection) BEFORE the callback runs.  The callback may
+ * call back into the library, and a query that is being completed must not
+ * be found there: ares_cancel() would complete it a second time, and closing
+ * the connection it was sent on (a new request failing to be written to it,
+ * ares_set_servers*()) would requeue it. */
+void ares_query_complete(ares_query_t *query, ares_status_t status,
+                         size_t timeouts, const ares_dns_record_t *dnsrec)
+{
+  ares_detach_query(query);
+  query->callback(query->arg, status, timeouts, dnsrec);
+  ares_query_release(query);
 }
 
 void ares_free_query(ares_query_t *query)
 {
   ares_detach_query(query);
+  ares_query_release(query);
+}
+
+/* Release the memory of a query that is no longer linked anywhere */
+static void ares_query_release(ares_query_t *query)
+{
   /* Zero out some important stuff, to help catch bugs */
   query->callback = NULL;
   query->arg      = NULL;
